@@ -64,6 +64,7 @@ public:
    Chunk *GetPrevType(const E_Token type, int level = ANY_LEVEL, E_Scope scope = E_Scope::ALL) const;
    Chunk *GetNextType(const E_Token type, int level = ANY_LEVEL, E_Scope scope = E_Scope::ALL) const;
    Chunk *GetOpeningParen(E_Scope scope = E_Scope::ALL) const;
+   Chunk *GetClosingParen(E_Scope scope = E_Scope::ALL) const;
    bool IsString(const char *str, bool caseSensitive = true) const;
    bool IsComment() const;
    bool IsPreproc() const;
